@@ -310,6 +310,27 @@ def fmt_num(v, style="plain"):
     return s
 
 
+def sci_num(v):
+    """scientific notation that parses back to exactly v"""
+    for digits in range(1, 18):
+        t = f"{v:.{digits}e}"
+        if float(t) == v:
+            mant, ex = t.split("e")
+            mant = mant.rstrip("0").rstrip(".") if "." in mant else mant
+            return f"{mant}e{int(ex):+d}" if int(ex) < 0 else f"{mant}e{int(ex)}"
+    return repr(v)
+
+
+def dot_num(v):
+    """.5 / 3. spellings"""
+    s = fmt_num(v)
+    if s.startswith("0.") and len(s) > 2:
+        return s[1:]
+    if s.isdigit():
+        return s + "."
+    return s
+
+
 class Renderer:
     """Renders an AST into model text.
     profile keys (all optional):
@@ -359,6 +380,11 @@ class Renderer:
             full = "full" if self._coin(0.3) else "minimal"
         if kind == "num":
             s = fmt_num(abs(node[1]))
+            style = self.p.get("num_style", "plain")
+            if style == "sci" and self._coin(0.5):
+                s = sci_num(abs(node[1]))
+            elif style == "dot" and self._coin(0.5):
+                s = dot_num(abs(node[1]))
             if node[1] < 0 or (node[1] == 0 and math.copysign(1, node[1]) < 0):
                 return "(-" + s + ")"
             return s
